@@ -91,6 +91,58 @@ fn check_dimacs(clauses: &[Clause], style: usize) -> Option<(String, String)> {
                 }
                 Err(p) => return Some(("dimacs-roundtrip".into(), format!("re-parsing to_dimacs output {:?} panicked: {}", again, p))),
             }
+            // formulas are objects with histories: the same round trip for every formula obtained by
+            // conditioning the (already printed) parsed formula on a literal, for a copy of it, and for the
+            // parent once more after its children were printed
+            if style == 0 && !crate::core::disabled("derived_print") {
+                let sets = |v: &Vec<Clause>| -> Vec<std::collections::BTreeSet<Lit>> { v.iter().map(|c| c.iter().cloned().collect()).collect() };
+                let round = |x: &Cnf, what: &str| -> Option<(String, String)> {
+                    let xc = clauses_of(x);
+                    if xc.is_empty() {
+                        // the DIMACS reader rejects a header announcing 0 clauses, so an empty formula cannot be
+                        // re-parsed; what it prints must simply contain no clause line
+                        let t = x.to_dimacs();
+                        return if t.trim().is_empty() { None } else { Some(("dimacs-roundtrip".into(), format!("{}: the formula has no clause but to_dimacs prints {:?}", what, t))) };
+                    }
+                    let nx = num_vars(&xc).max(1);
+                    let t = format!("p cnf {} {}{}\n", nx.max(n), xc.len(), x.to_dimacs());
+                    match guarded(|| Cnf::from_dimacs(&t)) {
+                        Ok(y) => {
+                            if sets(&clauses_of(&y)) != sets(&xc) {
+                                Some(("dimacs-roundtrip".into(), format!("{}: to_dimacs prints {:?}, which parses to {:?}; the formula's clauses are {:?}", what, t, clauses_of(&y), xc)))
+                            } else {
+                                None
+                            }
+                        }
+                        Err(p) => Some(("dimacs-roundtrip".into(), format!("{}: re-parsing {:?} panicked: {}", what, t, p))),
+                    }
+                };
+                for v in 0..n {
+                    for pol in [true, false] {
+                        let d = match guarded(|| c.condition(rsdd::repr::Literal::new(rsdd::repr::VarLabel::new(v as u64), pol))) {
+                            Ok(d) => d,
+                            Err(_) => continue, // conditioning is C15's business
+                        };
+                        if let Some(e) = round(&d, &format!("the formula conditioned on {}x{} after its parent was printed", if pol { "" } else { "-" }, v + 1)) {
+                            return Some(e);
+                        }
+                        // a grandchild of two printed ancestors
+                        if v + 1 < n {
+                            if let Ok(dd) = guarded(|| d.condition(rsdd::repr::Literal::new(rsdd::repr::VarLabel::new((v + 1) as u64), !pol))) {
+                                if let Some(e) = round(&dd, "a formula conditioned twice, each parent printed before") {
+                                    return Some(e);
+                                }
+                            }
+                        }
+                    }
+                }
+                if let Some(e) = round(&c.clone(), "a copy of the printed formula") {
+                    return Some(e);
+                }
+                if let Some(e) = round(&c, "the parent formula, printed again after its children") {
+                    return Some(e);
+                }
+            }
         }
         Err(p) => return Some(("dimacs-cnf".into(), format!("layout {}: Cnf::from_dimacs panicked on {:?}: {}", style, text, p))),
     }
